@@ -410,6 +410,19 @@ def opC09Password : List String → Res
     | _, _, _ => bad
   | _ => bad
 
+def opC09PwSeq : List String → Res
+  | [jobs, attempts] =>
+    let (sch, cont) := parseJobs jobs
+    let rs := (attempts.splitOn ",").map fun at' => match at'.splitOn ":" with
+      | [u, pw, ip] => (match unhex u, unhex pw, unhex ip with
+        | some u, some pw, some ip => if passwordCallback (fun a => [a]) sch cont u pw ip then "accept" else "reject"
+        | _, _, _ => "bad")
+      | _ => "bad"
+    let r := joinWith "," rs
+    { m := r, s := r, t := joinWith "," ((if rs.contains "accept" then ["granted"] else []) ++ (if rs.contains "reject" then ["rejected"] else [])
+        ++ (if rs.length > 1 then ["sequence"] else [])) }
+  | _ => bad
+
 def opC09Health : List String → Res
   | [h] => match unhex h with
     | some cmd =>
@@ -455,7 +468,8 @@ def opC17Trust : List String → Res
 def opC17Wrap : List String → Res
   | [state, trustAll, answers] =>
     let st := if state = "known" then HostState.known else if state = "changed" then .changed else .unknown
-    let ans := (answers.splitOn ",").map str
+    -- CANCEL: nobody answers and the client's context ends — no answer is no approval
+    let ans := if answers = "CANCEL" then [] else (answers.splitOn ",").map str
     let v := wrapDecision st (trustAll = "1") ans
     let r := match v with
       | .proceed => s!"proceed;untrusted=false;recorded=true;keptother=true"
@@ -777,6 +791,29 @@ def opC13Script : List String → Res
     | none => bad
   | _ => bad
 
+/-- follows against the tail limiter: truncation (X) and waiting (W) are invisible to the limiter —
+    a follow keeps its slot while its file is re-read -/
+def opC13Tail : List String → Res
+  | [cap, ops, maxs] => match cap.toNat?, ((maxs.splitOn ",").getD 0 "").toNat? with
+    | some cap, some maxActive =>
+      let opl := (ops.splitOn ",").filter (· ≠ "")
+      let n := opl.length
+      let (r, obs) := opl.foldl (fun (acc : C13Run × List String) op =>
+          -- a cancelled follow returns whether it waits or holds (its reader watches the context)
+          let r := if op.startsWith "X" ∨ op.startsWith "W" then acc.1
+                   else if op.startsWith "C" then c13op (c13op acc.1 op) ("F" ++ (op.drop 1).toString)
+                   else c13op acc.1 op
+          (r, acc.2 ++ [s!"{r.st.tokens}/{c13returned r}"])) ({ st := limInit cap n }, [])
+      { m := if r.ok then joinWith "," obs ++ ";final=0" else "MODEL-LABEL-NOT-ENABLED",
+        -- the number of test files open at once (maxr) is reported but not judged: the follow's periodic
+        -- truncation check opens its file by path a second time, also while the read itself is over
+        -- judged instead: the number of follows that deliver a line appended at the same moment (maxActive)
+        s := if maxActive ≤ cap then "final=0" else "LIMIT-EXCEEDED",
+        t := joinWith "," ((if opl.any (·.startsWith "C") then ["cancel"] else []) ++ (if opl.any (·.startsWith "X") then ["truncate-retry"] else [])
+            ++ (if obs.any (fun o => o.startsWith s!"{cap}/") then ["full"] else [])) }
+    | _, _ => bad
+  | _ => bad
+
 /-! C14 -/
 
 /-- script ops of the harness interpreted on the model; the client's connection index maps to
@@ -823,8 +860,10 @@ def opC14Script : List String → Res
     | some max =>
       let opl := (ops.splitOn ",").filter (· ≠ "")
       let (r, obs) := opl.foldl (fun (acc : C14Run × List String) op =>
-          let (r, ok) := c14op acc.1 op
-          (r, acc.2 ++ [s!"{r.st.counter}/{boolStr ok}"])) ({ st := connInit max }, [])
+          -- W<ms>: time passes, nothing else (the server has no handshake deadline)
+          let (r, ok) := if op.startsWith "W" then (acc.1, true) else c14op acc.1 op
+          -- third field: the connections the server really holds (C14_full_holds: counter = #open)
+          (r, acc.2 ++ [s!"{r.st.counter}/{boolStr ok}/{r.st.counter}"])) ({ st := connInit max }, [])
       let top : Int := obs.foldl (fun (m : Int) o => max' m (((o.splitOn "/").headD "0").toInt?.getD 0)) 0
       let low : Int := obs.foldl (fun (m : Int) o => let v : Int := ((o.splitOn "/").headD "0").toInt?.getD 0; if v < m then v else m) 0
       { m := joinWith "," obs ++ ";final=0",
@@ -1162,6 +1201,44 @@ def opC02E2E : List String → Res
     | none => bad
   | _ => bad
 
+/-- many files in one session while the first reader is held back: nothing may be missing, and
+    no recorded finding applies (the session cannot have gone idle before every command was sent) -/
+def opC02Many : List String → Res
+  | [transport, n, first, _hold, obs] => match n.toNat?, first.toNat? with
+    | some n, some first =>
+      let want := "0;" ++ joinWith "&" ((List.range n).map fun i => s!"f{i}=1.." ++ toString (if i = 0 then first else 3))
+      { m := obs, s := want, t := joinWith "," [transport, "many-files"] }
+    | _, _ => bad
+  | _ => bad
+
+/-- several requests decoded in one process, evaluated afterwards: every request selects what its own
+    pattern and polarity say (raw RE2 verdicts are supplied), whatever was decoded before or after it -/
+def opC12Select : List String → Res
+  | [_lines, reqs, raws] =>
+    let rs := reqs.splitOn ";"
+    let ws := raws.splitOn "|"
+    let outs := (rs.zip ws).map fun (r, w) => match r.splitOn ":" with
+      | [inv, ph] => (match unhex ph with
+        | some pat =>
+          if w = "E" then "E" else
+          let noop := Facts.noopPatternsBytes.contains pat
+          let bits := if w = "-" then "-" else String.ofList (w.toList.map fun c => if noop then '1' else if (c == '1') != (inv == "1") then '1' else '0')
+          bits ++ "," ++ bits
+        | none => "bad")
+      | _ => "bad"
+    let r := joinWith "|" outs
+    { m := r, s := r, t := joinWith "," ((if rs.length > 1 then ["sequence"] else []) ++
+        (if rs.any (fun r => rs.any fun r' => r ≠ r' ∧ (r.splitOn ":").getD 1 "" = (r'.splitOn ":").getD 1 "x") then ["same-pattern-other-flag"] else [])) }
+  | _ => bad
+
+/-- several readers into one server handler: every source's records are its lines 1..n, intact -/
+def opC07Pipe : List String → Res
+  | [_buf, srcs] =>
+    let want := joinWith "&" ((srcs.splitOn ";").zipIdx.map fun (sp, i) => s!"{i}=1.." ++ ((sp.splitOn "x").getD 0 "0"))
+    { m := want, s := want, t := joinWith "," ((if (srcs.splitOn ";").length > 1 then ["multi-source"] else [])
+        ++ (if (srcs.splitOn ";").any (fun sp => (((sp.splitOn "x").getD 1 "0").toNat?.getD 0) > 32768) then ["long"] else [])) }
+  | _ => bad
+
 def dispatch (line : String) : Res :=
   match (line.splitOn " ").filter (· ≠ "") with
   | "c01.reader" :: a => opC01Reader a
@@ -1171,6 +1248,7 @@ def dispatch (line : String) : Res :=
   | "c03.e2e" :: a => opC03E2E a
   | "c02.session" :: a => opC02Session a
   | "c02.e2e" :: a => opC02E2E a
+  | "c02.many" :: a => opC02Many a
   | "c04.perc" :: a => opC04Perc a
   | "c04.tail" :: a => opC04Tail a
   | "c05.agg" :: a => opC05Agg a
@@ -1179,17 +1257,21 @@ def dispatch (line : String) : Res :=
   | "c06.queue" :: a => opC06Queue a
   | "c07.multi" :: a => opC07Multi a
   | "c07.sched" :: a => opC07Sched a
+  | "c07.pipe" :: a => opC07Pipe a
   | "c08.perm" :: a => opC08Perm a
   | "c08.cat" :: a => opC08Cat a
   | "c09.keys" :: a => opC09Keys a
   | "c09.password" :: a => opC09Password a
+  | "c09.pwseq" :: a => opC09PwSeq a
   | "c09.health" :: a => opC09Health a
   | "c10.decode" :: a => opC10Decode a
   | "c10.run" :: a => opC10Run a
   | "c10.query" :: a => opC10Query a
   | "c12.roundtrip" :: a => opC12Roundtrip a
+  | "c12.select" :: a => opC12Select a
   | "c11.parse" :: a => opC11Parse a
   | "c13.script" :: a => opC13Script a
+  | "c13.tail" :: a => opC13Tail a
   | "c14.script" :: a => opC14Script a
   | "c15.write" :: a => opC15Write a
   | "c16.colorfy" :: a => opC16Colorfy a
